@@ -706,19 +706,27 @@ def handleIncomingSSRCPrefix (known : Nat → Bool) (s : Session) (singleSection
       let c ← idx codecs 0
       pure (some c)
 
-/-! ### SetRemoteDescription: `pc.RemoteDescription().parsed` after `setDescription` succeeded -/
+/-! ### SetRemoteDescription: `pc.RemoteDescription().parsed` after `setDescription` succeeded
+
+  `SetRemoteDescription` hands a rollback to `setDescription` and returns at once (peerconnection.go, "A rollback
+  carries no session description"), before anything is parsed or dereferenced; and since `fix: rollback returns
+  to stable` `checkNextSignalingState` ACCEPTS a remote rollback in have-remote-offer / have-remote-pranswer
+  (clearing the pending descriptions).  So the path modelled here — the one that goes on to
+  `pc.RemoteDescription().parsed.MediaDescriptions` — is only ever taken with the three types below; the
+  rollback transitions are C01/C02's subject (`Model/Signaling.lean`), and `Proofs/ModelAgreement2.lean` proves
+  that `checkNext` below is `Signaling.checkNext` on these types. -/
 inductive Sig where
   | stable | haveLocalOffer | haveRemoteOffer | haveLocalPranswer | haveRemotePranswer | closed
   deriving Repr, DecidableEq
 
+/-- the description types that reach the dereference (a rollback returns earlier, see above) -/
 inductive SdpType where
-  | offer | pranswer | answer | rollback
+  | offer | pranswer | answer
   deriving Repr, DecidableEq
 
 /-- `checkNextSignalingState(cur, next, op, type)`; `none` = error -/
 def checkNext (cur next : Sig) (remote : Bool) (t : SdpType) : Option Sig :=
-  if t == .rollback && cur == .stable then none
-  else match cur with
+  match cur with
   | .stable =>
     if !remote then (if t == .offer && next == .haveLocalOffer then some next else none)
     else (if t == .offer && next == .haveRemoteOffer then some next else none)
@@ -758,8 +766,6 @@ def setRemote {δ : Type} (st : Descs δ) (sd : δ) (t : SdpType) : Option (Desc
     (checkNext st.state .stable true t).map fun n =>
       { st with state := n, currentRemote := some sd, currentLocal := st.pendingLocal, pendingRemote := none,
                 pendingLocal := none }
-  | .rollback =>
-    (checkNext st.state .stable true t).map fun n => { st with state := n, pendingRemote := none }
   | .pranswer =>
     (checkNext st.state .haveRemotePranswer true t).map fun n => { st with state := n, pendingRemote := some sd }
 
@@ -837,5 +843,79 @@ def receiverReadOld (tracks : List (Option Nat)) : Res (Option Nat) := do
   let t ← idx tracks 0
   let r ← deref t
   pure (some r)
+
+/-! ### handleIncomingSSRC up to the first use of the transports (peerconnection.go) -/
+
+inductive IncomingResult where
+  | declared                                  -- nil: the SSRC is declared in the remote description
+  | added (kind : Nat) (streamID id : Str)    -- nil: handleUndeclaredSSRC added a transceiver for it
+  | ssrcErr                                   -- errMediaSectionHasExplictSSRCAttribute
+  | errAdd                                    -- AddTransceiverFromKind failed
+  | errPeek                                   -- nothing to peek / fewer than 4 bytes
+  | errCodec                                  -- unknown payload type
+  | errEarly                                  -- errPeerConnEarlyMediaWithoutAnswer
+  | errMidRequired
+  | errRidRequired
+  | beyond                                    -- continues with streamsForSSRC (transports)
+  deriving Repr, DecidableEq
+
+/-- `for _, track := range trackDetailsFromSDP(…)`: rtx / fec / ssrcs contain the SSRC -/
+def ssrcDeclared (ssrc : Nat) (ts : List TrackDetails) : Bool :=
+  ts.any fun t => t.rtx == some ssrc || t.fec == some ssrc || t.ssrcs.contains ssrc
+
+/-- both call sites: `if handled, err := pc.handleUndeclaredSSRC(ssrc, m); handled || err != nil { return err }`;
+    `none` = fall through. `addOK kind` = `AddTransceiverFromKind(kind, sendrecv)` succeeds. -/
+def undeclaredCall (addOK : Nat → Bool) (m : Media) : Res (Option IncomingResult) := do
+  let r ← handleUndeclaredSSRC m
+  match r with
+  | .notHandledRid => pure none
+  | .errExplicitSSRC => pure (some .ssrcErr)
+  | .add k sid id => if addOK k then pure (some (.added k sid id)) else pure (some .errAdd)
+
+/-- `findMediaSectionByPayloadType` returning the section itself -/
+def findMediaByPayloadType (pt : Nat) (ms : List Media) : Option Media :=
+  ms.find? fun m =>
+    (equalFold m.media kVideo || equalFold m.media kAudio) && m.formats.any (fun f => parseUint f 8 == some pt)
+
+/-- `handleIncomingSSRC(rtpStream, ssrc)` for a non-nil remote description `s` of type answer / not answer.
+    `withoutAnswer` = SettingEngine.handleUndeclaredSSRCWithoutAnswer; `midOK` / `ridOK` = the sdes:mid /
+    sdes:rtp-stream-id header extension is negotiated for audio or video; `known` = the MediaEngine knows the
+    payload type; `pkt` = what `rtpStream.Peek` yields (`none` = error). -/
+def handleIncomingSSRCHead (s : Session) (isAnswer withoutAnswer midOK ridOK : Bool) (known addOK : Nat → Bool)
+    (ssrc : Nat) (pkt : Option (List Nat)) : Res IncomingResult := do
+  let ts ← trackDetailsFromSDP s
+  if ssrcDeclared ssrc ts then pure .declared
+  else do
+    let shortcut ← (if (!isAnswer || withoutAnswer) && s.medias.length == 1 then do
+        let m ← idx s.medias 0
+        undeclaredCall addOK m
+      else pure none)
+    match shortcut with
+    | some r => pure r
+    | none =>
+      match pkt with
+      | none => pure .errPeek
+      | some b =>
+        if b.length < 4 then pure .errPeek
+        else do
+          let b1 ← idx b 1
+          let pt := b1 % 128
+          match rtpParametersByPayloadType known pt with
+          | none => pure .errCodec
+          | some codecs =>
+            if !midOK then
+              if isAnswer && !withoutAnswer then pure .errEarly
+              else
+                match findMediaByPayloadType pt s.medias with
+                | some m => do
+                  let r ← undeclaredCall addOK m
+                  match r with
+                  | some x => pure x
+                  | none => pure .errMidRequired
+                | none => pure .errMidRequired
+            else if !ridOK then pure .errRidRequired
+            else do
+              let _ ← idx codecs 0
+              pure .beyond
 
 end WebrtcVerif.RemoteInput
